@@ -8,8 +8,15 @@ L = os.path.join(ROOT, "selftest-logs")
 RUNS = [("before", "own-mutants.log"), ("before", "round1-first-run.log"), ("after", "round1-after.log"),
         ("before", "round2-first-run.log"), ("after", "round2-after.log"),
         ("before", "round3-first-run.log"), ("after", "round3-after.log"),
-        ("before", "round4-c16c17-first-run.log"), ("before", "round4-c11c19-first-run.log"), ("after", "round4-after.log")]
+        ("before", "round4-c16c17-first-run.log"), ("before", "round4-c11c19-first-run.log"), ("after", "round4-after.log"),
+        ("before", "round5-first-run.log"), ("after", "round5-after.log"), ("before", "round6-first-run.log"),
+        # the last run over everything decides the "after" column
+        ("after", "full-regression-100-mutants.log")]
 OVERRIDES = {
+ "C12-r6m2": {"checked_with": "C12", "after": "RETIRED (the code it changes was removed by fix f1bdc17)", "after_key": None},
+ "C18-r6m1": {"checked_with": "C18", "after": "RETIRED (made behaviour-preserving by fix f1bdc17; the regression run rightly reports nothing)",
+              "after_key": "first run: R1 create/vcf.gz first_chunk=lt_first_block base=ok got=err stage=build_genotype"},
+ "C07-r6m2": {"checked_with": "C18 (first run: C07)"},
  "C10-r2m2": {"checked_with": "C10", "origin": "seeded", "before": "PATCH-DID-NOT-APPLY (context changed by fix d8f9cce; re-based)", "after": "DETECTED",
               "after_key": "C10 L2 ploidy error in a selected sample but exit 0"},
  "C17-r2m1": {"before": "NOT-EVALUATED (that run stopped at a dependency panic that was not yet listed as a known finding)", "before_key": None},
@@ -70,7 +77,8 @@ own = [r for r in out if r.get('origin') == 'own']
 se = [r for r in out if r.get('origin') != 'own']
 first = sum(1 for r in se if r.get('before') == 'DETECTED')
 now = sum(1 for r in se if (r.get('after') or r.get('before')) == 'DETECTED')
-summary = f"own mutants: {sum(1 for r in own if r.get('before')=='DETECTED')}/{len(own)} detected; seeded mutants: {first}/{len(se)} detected on the first run, {now}/{len(se)} after strengthening"
+retired = sum(1 for r in se if str(r.get('after', '')).startswith('RETIRED'))
+summary = f"own mutants: {sum(1 for r in own if r.get('before')=='DETECTED')}/{len(own)} detected; seeded mutants: {first}/{len(se)} detected on the first run, {now}/{len(se) - retired} after strengthening ({retired} retired)"
 print(summary)
 d = os.path.join(ROOT, 'DESIGN.md')
 s = open(d).read()
